@@ -407,7 +407,11 @@ fn apply_parent_ready(
     received: Result<BlockId, oneshot::error::RecvError>,
     parent_block_id: &BlockId,
 ) {
-    let (new_slot, new_hash) = received.expect("ParentReady sender should not be dropped");
+    // the pool drops the sender when it prunes the window's slot, i.e. the window is already decided
+    let Ok((new_slot, new_hash)) = received else {
+        debug!("window was pruned before ParentReady, keeping the current parent");
+        return;
+    };
     let (parent_slot, parent_hash) = parent_block_id;
     if &new_hash == parent_hash {
         debug!("parent is ready, continuing with same parent");
@@ -530,10 +534,11 @@ async fn wait_for_first_slot(
     // - block reconstruction in blockstore, OR
     // - notification that a later slot was finalized.
     tokio::select! {
-        res = &mut rx => {
-            let parent = res.expect("sender dropped channel");
-            SlotReady::Ready(parent)
-        }
+        res = &mut rx => match res {
+            Ok(parent) => SlotReady::Ready(parent),
+            // the pool drops the sender when it prunes the slot: a later slot is already finalized
+            Err(_) => SlotReady::Skip,
+        },
 
         res = async {
             let handle = tokio::spawn(async move {
